@@ -163,4 +163,159 @@ theorem rewriteFaces_deleted (tris : Array (PTri K)) (e e' : PEdge K) (h : rewri
       simp only [Option.some.injEq] at h
       rw [← h]
 
+/-! ## the contour vertices are vertices of the triangles -/
+
+/-- same vertex triples, triangle by triangle -/
+def VSame (a b : Array (PTri K)) : Prop := ∀ c : Nat, (a[c]?).map (·.v) = (b[c]?).map (·.v)
+
+theorem VSame.trans {a b c : Array (PTri K)} (h1 : VSame a b) (h2 : VSame b c) : VSame a c := fun i => (h1 i).trans (h2 i)
+
+theorem vsame_setParent (a : Array (PTri K)) (o : Nat) (ot : PTri K) (p : Option Nat) (h : a[o]? = some ot) :
+    VSame (a.set! o { ot with parent := p }) a := by
+  intro c
+  rw [Array.set!_eq_setIfInBounds, Array.getElem?_setIfInBounds]
+  by_cases hc : o = c
+  · subst hc
+    have : o < a.size := by
+      rcases Nat.lt_or_ge o a.size with hlt | hge
+      · exact hlt
+      · rw [Array.getElem?_eq_none hge] at h; cases h
+    rw [h]; simp [this]
+  · simp [hc]
+
+/-- `x` is a corner of some triangle of `tris0` -/
+def VOk (tris0 : Array (PTri K)) (x : Nat) : Prop := ∃ (c : Nat) (t : PTri K) (j : Nat), tris0[c]? = some t ∧ x = get3 t.v j
+
+theorem vok_of_vsame (tris0 a : Array (PTri K)) (hv : VSame a tris0) (c : Nat) (t : PTri K) (j : Nat) (h : a[c]? = some t) :
+    VOk tris0 (get3 t.v j) := by
+  have := hv c
+  rw [h] at this
+  cases h0 : tris0[c]? with
+  | none => rw [h0] at this; simp at this
+  | some t0 =>
+    rw [h0] at this
+    simp only [Option.map_some, Option.some.injEq] at this
+    exact ⟨c, t0, j, h0, by rw [this]⟩
+
+theorem walk_vinv (edges : Array (PEdge K)) (tris0 : Array (PTri K)) (sv nf : Nat) : ∀ (fuel : Nat) (s s' : WalkState K),
+    walk edges sv nf fuel s = .ok s' → VSame s.tris tris0 → (∀ x, x ∈ s.vaf.toList → VOk tris0 x) →
+    VSame s'.tris tris0 ∧ ∀ x, x ∈ s'.vaf.toList → VOk tris0 x := by
+  intro fuel
+  induction fuel with
+  | zero => intro s s' h; simp [walk] at h
+  | succ fuel ih =>
+    intro s s' h hv hx
+    unfold walk at h
+    split at h
+    · cases h
+    · rename_i t ht
+      split at h
+      · simp only [Res.ok.injEq] at h; subst h; exact ⟨hv, hx⟩
+      · simp only at h
+        have hv' : VSame (s.tris.set! s.cur { t with parent := some nf }) tris0 := (vsame_setParent s.tris s.cur t _ ht).trans hv
+        split at h
+        · cases h
+        · split at h
+          · refine ih _ _ h hv' ?_
+            intro x hxm
+            simp only [Array.toList_push, List.mem_append, List.mem_singleton] at hxm
+            rcases hxm with hxm | rfl
+            · exact hx x hxm
+            · exact vok_of_vsame tris0 s.tris hv s.cur t _ ht
+          · split at h
+            · cases h
+            · split at h
+              · cases h
+              · split at h
+                · exact ih _ _ h hv' hx
+                · cases h
+
+theorem flood_vsame (edges : Array (PEdge K)) (nf : Nat) : ∀ (fuel : Nat) (stack : List Nat) (tris : Array (PTri K)),
+    VSame (flood edges nf fuel stack tris) tris := by
+  intro fuel
+  induction fuel with
+  | zero => intro stack tris; unfold flood; exact fun _ => rfl
+  | succ fuel ih =>
+    intro stack tris
+    cases stack with
+    | nil => unfold flood; exact fun _ => rfl
+    | cons t stack =>
+      unfold flood
+      split
+      · exact ih _ _
+      · rename_i tr htr
+        simp only
+        refine (ih _ _).trans ?_
+        -- the three-step fold only sets `parent` fields
+        have hstep : ∀ (l : List Nat) (acc : List Nat × Array (PTri K)), VSame acc.2 tris →
+            VSame (l.foldl (fun (acc : List Nat × Array (PTri K)) (k : Nat) =>
+              match edges[get3 tr.e k]? with
+              | some e =>
+                if e.deleted then
+                  match acc.2[e.otherTriangle t]? with
+                  | some ot => if ot.parent.isNone then (e.otherTriangle t :: acc.1, acc.2.set! (e.otherTriangle t) { ot with parent := some nf }) else acc
+                  | Option.none => acc
+                else acc
+              | Option.none => acc) acc).2 tris := by
+          intro l
+          induction l with
+          | nil => intro acc h; exact h
+          | cons k l ihl =>
+            intro acc h
+            rw [List.foldl_cons]
+            apply ihl
+            split
+            · split
+              · split
+                · rename_i ot hot
+                  split
+                  · exact (vsame_setParent acc.2 _ ot _ hot).trans h
+                  · exact h
+                · exact h
+              · exact h
+            · exact h
+        exact hstep [0, 1, 2] (stack, tris) (fun _ => rfl)
+
+/-- pass-3 state: the triangles keep their vertex triples and every contour vertex is a corner of a triangle -/
+structure P3VInv (tris0 : Array (PTri K)) (st : P3State K) : Prop where
+  same : VSame st.tris tris0
+  vok : ∀ x, x ∈ st.vaf.toList → VOk tris0 x
+
+theorem faceStep_vinv (edges : Array (PEdge K)) (tris0 : Array (PTri K)) (st st' : P3State K) (i : Nat)
+    (h : faceStep edges st i = .ok st') (hi : P3VInv tris0 st) : P3VInv tris0 st' := by
+  unfold faceStep at h
+  split at h
+  · cases h
+  · rename_i t ht
+    split at h
+    · simp only [Res.ok.injEq] at h; subst h; exact hi
+    · simp only at h
+      obtain ⟨fl, _, h⟩ := Res.bind_ok _ _ _ h
+      split at h
+      · simp only [Res.ok.injEq] at h; subst h; exact hi
+      · rename_i j1
+        obtain ⟨s, hw, h⟩ := Res.bind_ok _ _ _ h
+        obtain ⟨w1, w2⟩ := walk_vinv edges tris0 _ _ _ _ _ hw hi.same (by
+          intro x hx
+          simp only [Array.toList_push, List.mem_append, List.mem_singleton] at hx
+          rcases hx with hx | rfl
+          · exact hi.vok x hx
+          · exact vok_of_vsame tris0 st.tris hi.same i t _ ht)
+        split at h
+        · simp only [Res.ok.injEq] at h; subst h
+          exact ⟨(flood_vsame edges _ _ _ _).trans w1, w2⟩
+        · simp only [Res.ok.injEq] at h; subst h
+          exact ⟨w1, w2⟩
+
+theorem pass3_vinv (edges : Array (PEdge K)) (tris0 : Array (PTri K)) : ∀ (l : List Nat) (st st' : P3State K),
+    pass3 edges l st = .ok st' → P3VInv tris0 st → P3VInv tris0 st' := by
+  intro l
+  induction l with
+  | nil => intro st st' h hi; simp only [pass3, Res.ok.injEq] at h; subst h; exact hi
+  | cons a l ih =>
+    intro st st' h hi
+    simp only [pass3] at h
+    obtain ⟨s1, h1, h2⟩ := Res.bind_ok _ _ _ h
+    exact ih s1 st' h2 (faceStep_vinv edges tris0 st s1 a h1 hi)
+
 end C12
